@@ -61,7 +61,8 @@ def gen_plan(seed, tier, index=0, avoid=()):
         pre.append([text, gen.gen_atts(rng, 0.6)])
     cfg = {"h": h, "w": w, "keep_last_line": rng.random() < 0.5, "hide_cursor": rng.random() < 0.7,
            "onlcr": rng.random() < 0.7, "pre": pre, "final_newline": rng.random() < 0.7,
-           "cursor_up": rng.choice((0, 0, 0, rng.randint(0, h)))}
+           "cursor_up": rng.choice((0, 0, 0, rng.randint(0, h))),
+           "out_buffer": rng.choice(("none", "line", "block", "block"))}
     maxsteps = 30 if tier == "quick" else 100
     nsteps = rng.choice((1, 2, 3, 4, 6, 8, rng.randint(1, maxsteps)))
     steps = []
@@ -184,7 +185,8 @@ SIMPLIFIERS = (_simp,)
 
 def run_plan(p, keep_log=False):
     cfg = p["cfg"]
-    s = setup.make({"h": cfg["h"], "w": cfg["w"], "onlcr": cfg["onlcr"], "yield_cap": 2000000}, None, keep_log)
+    s = setup.make({"h": cfg["h"], "w": cfg["w"], "onlcr": cfg["onlcr"], "yield_cap": 2000000,
+                    "out_buffer": cfg.get("out_buffer", "none")}, None, keep_log)
     world, term = s.world, s.term
     res = {"violation": None, "error": None, "probes": world.probes, "faults": world.faults,
            "states": set(), "nsteps": 0}
@@ -265,6 +267,11 @@ def _execute(p, s, res):
         win.__enter__()
     except HarnessError:
         raise
+    except Quiescent:
+        # the window waits for the terminal's answer to a query that never reached the terminal
+        _violate(res, "enter_blocked_forever", -1, {"unflushed_output": "".join(s.out.pending_out)[:40],
+                                                    "out_buffer": cfg.get("out_buffer", "none")})
+        return
     except Exception as e:
         if environment_artefact(e):
             raise HarnessError("stub-environment artefact: %s: %s" % (type(e).__name__, e))
